@@ -41,6 +41,11 @@ fn main() {
     if property == "C36" {
         std::process::exit(vmc::c36::run(&tier, &mut out));
     }
+    if property == "C33" {
+        // engine part first (restart survival of snapshot metadata on the real engines), then
+        // the cluster part; one evidence file for both
+        std::process::exit(vmc::c33::run_both(&tier, &mut out));
+    }
     let Some(check) = specs::cluster_check(&property, &tier) else {
         let _ = writeln!(out, "MACHINERY-ERROR unknown property {property} for clustermc");
         std::process::exit(2);
